@@ -102,12 +102,19 @@ def main(ck):
     dropped_user = {}
     crashes = 0
     failed = 0
+    dropped_untranslatable = []
     hist = {}
     samples = []
     helper_free = {}
     for name, src, ext, cases, ref, user_arith in workloads:
         inf = info[name]
         if not inf['ok']:
+            if name.startswith('c36py') and inf['stage'] == 'translate':
+                # a generated program the compiler rejects or crashes on is C43's subject, not a memory error:
+                # dropped and counted; too many of them make the run inconclusive below
+                dropped_untranslatable.append(name)
+                ck.note('generated module %s not translated (C43 territory): %s' % (name, inf['errors'][-300:]))
+                continue
             failed += 1
             ck.note('build failure %s at %s: %s' % (name, inf['stage'], inf['errors'][-400:]))
             continue
@@ -154,6 +161,8 @@ def main(ck):
         for ft in res.fatal:
             ck.inconclusive_if(True, 'driver failed for %s: %s' % (name, str(ft)[-400:]))
     ck.inconclusive_if(failed > 0, '%d workload module(s) failed to build' % failed)
+    ck.inconclusive_if(len(dropped_untranslatable) * 4 > len(workloads), 'more than a quarter of the generated modules did not translate')
+    ck.cov['generated_modules_dropped_untranslatable'] = dropped_untranslatable
     # the sanitizer runtime must really have been active: libasan preloaded and instrumented code reached
     ck.inconclusive_if(total < ck.pick(4000, 50000), 'fewer sanitised calls than the floor')
     return ck.finish(
